@@ -2041,8 +2041,13 @@ func (self *Node) setObject(v *linkedPairs) {
 }
 
 func (self *Node) parseRaw(full bool) {
+	// the node may be replaced as a whole below: release the mutex that was taken,
+	// not whatever the node holds afterwards (readers may be waiting on it)
+	m := self.m
 	lock := self.lock()
-	defer self.unlock()
+	if lock {
+		defer m.Unlock()
+	}
 	if !self.isRaw() {
 		return
 	}
@@ -2057,6 +2062,11 @@ func (self *Node) parseRaw(full bool) {
 		parser.noLazy = true
 		parser.loadOnce = true
 		n, e = parser.Parse()
+		if e != 0 {
+			// publish the error like a parsed form: the node keeps its mutex
+			n = *newSyntaxError(parser.syntaxError(e))
+			e = 0
+		}
 		self.assign(n)
 	} else {
 		*self, e = parser.Parse()
